@@ -7,6 +7,7 @@ From ScV Require Import Base.CInt Gen.HashResize.
 From ScV Require Import C09.HashModel C09.HashProofs C09.PoolModel C09.PoolProofs C09.ListModel C09.ListProofs.
 From ScV Require Import C09.HashArrayModel C09.HashArrayProofs C09.RecycleModel C09.RecycleProofs.
 From ScV Require Import C09.KeyValueModel C09.KeyValueProofs Gen.AvlBalance C09.AvlModel C09.AvlProofs.
+From ScV Require Import Gen.ContainersC09 Gen.AvlStepsC09 Gen.KeyValueC09 C09.GenTies.
 Import ListNotations.
 Local Open Scope Z_scope.
 
@@ -241,6 +242,548 @@ Theorem C09_avl_rotation_children_exist :
   forall (key : Type) (l r : tree key), wfc key l -> wfc key r -> rebal_stuck key l r = false.
 Proof. exact rebal_never_stuck. Qed.
 Print Assumptions C09_avl_rotation_children_exist.
+
+(* ---------- tie T1: the models compute what the definitions GENERATED from the current source say ---------- *)
+(* Gen/ContainersC09.v, Gen/AvlStepsC09.v, Gen/KeyValueC09.v are regenerated from /repo on every run (tools/c2g/groups_C09.py).
+   In the slices pointers are integers, `<callee>_called / _arg<i>` are the calls made (1 = called) with their arguments,
+   `addr_<X>` is the address of the struct member X.  The list theorems hold for every address map `addr` of links
+   (injective, never NULL); the AVL theorems for every pointer that is NULL exactly when the subtree is empty. *)
+Theorem C09_gen_mstamp_init :
+  forall unit esz a mst : Z,
+         0 <= unit < M64 ->
+         0 <= esz < M64 ->
+         let
+         '(e, per, ssz, cur, ai_called, ai_arg0, ai_arg1, st_called, st_arg) := c9_mstamp_init unit esz a mst in
+          let m := mstamp_init unit esz in
+          ms_esz m = e /\
+          ms_per m = per /\
+          ms_ssz m = ssz /\
+          ms_cur m = cur /\ ms_nst m = st_called /\ ai_called = 1 /\ ai_arg0 = a /\ ai_arg1 = 8 /\ (st_called = 1 -> st_arg = mst).
+Proof. exact gen_mstamp_init. Qed.
+Print Assumptions C09_gen_mstamp_init.
+
+Theorem C09_gen_mstamp_stamp :
+  forall pkg ssz blk a : Z,
+         0 <= ssz < M64 ->
+         let
+         '(cur, current, stored, m_called, _, m_size, p_called, p_arr) := c9_mstamp_stamp pkg ssz blk a in
+          cur = 0 /\ current = blk /\ stored = blk /\ m_called = 1 /\ m_size = ssz /\ p_called = 1 /\ p_arr = a.
+Proof. exact gen_mstamp_stamp. Qed.
+Print Assumptions C09_gen_mstamp_stamp.
+
+Theorem C09_gen_mstamp_alloc :
+  forall (m : mstamp) (base mst pkg blk a : Z),
+         0 < ms_esz m ->
+         0 <= ms_cur m < ms_per m ->
+         ms_per m * ms_esz m < M64 ->
+         0 <= ms_ssz m < M64 ->
+         let
+         '(ret, cur1, called, arg) := c9_mstamp_alloc (ms_esz m) (ms_cur m) base (ms_per m) mst in
+          let
+          '(scur, _, _, _, _, _, pushes, _) := c9_mstamp_stamp pkg (ms_ssz m) blk a in
+           let
+           '(m', o) := mstamp_alloc m in
+            o = Some (ms_nst m - 1, ms_cur m) /\
+            ret = base + item_offset m (ms_nst m - 1, ms_cur m) /\
+            (called = 0 \/ called = 1) /\
+            (called = 1 -> arg = mst) /\
+            ms_cur m' = (if called =? 1 then scur else cur1) /\
+            ms_nst m' = ms_nst m + called * pushes /\ ms_esz m' = ms_esz m /\ ms_per m' = ms_per m /\ ms_ssz m' = ms_ssz m.
+Proof. exact gen_mstamp_alloc. Qed.
+Print Assumptions C09_gen_mstamp_alloc.
+
+Theorem C09_gen_mstamp_alloc_null :
+  forall (m : mstamp) (base mst : Z),
+         ms_esz m = 0 ->
+         let
+         '(ret, _, called, _) := c9_mstamp_alloc (ms_esz m) (ms_cur m) base (ms_per m) mst in
+          ret = 0 /\ called = 0 /\ mstamp_alloc m = (m, None).
+Proof. exact gen_mstamp_alloc_null. Qed.
+Print Assumptions C09_gen_mstamp_alloc_null.
+
+Theorem C09_gen_mstamp_truncate :
+  forall (m : mstamp) (mst pkg blk a : Z),
+         0 <= ms_esz m ->
+         0 <= ms_ssz m < M64 ->
+         let
+         '(r_called, r_arg, s_called, s_arg) := c9_mstamp_truncate mst (ms_esz m) in
+          let
+          '(scur, _, _, _, _, _, _, _) := c9_mstamp_stamp pkg (ms_ssz m) blk a in
+           r_called = 1 /\
+           r_arg = mst /\
+           ms_nst (mstamp_truncate m) = s_called /\ (s_called = 1 -> s_arg = mst /\ ms_cur (mstamp_truncate m) = scur).
+Proof. exact gen_mstamp_truncate. Qed.
+Print Assumptions C09_gen_mstamp_truncate.
+
+Theorem C09_gen_mempool_init :
+  forall (esz : Z) (zp : bool) (am af : Z),
+         let
+         '(e, c, z, mi_called, mi_arg0, mi_unit, mi_esz, ai_called, ai_arg0, ai_esz) := c9_mempool_init esz (b2z zp) am af in
+          let p7 := mempool_new esz zp in
+          mp_esz p7 = e /\
+          mp_count p7 = c /\
+          b2z (mp_zp p7) = z /\
+          mp_ms p7 = mstamp_init mi_unit mi_esz /\
+          mp_freed p7 = [] /\ mi_called = 1 /\ mi_arg0 = am /\ ai_called = 1 /\ ai_arg0 = af /\ ai_esz = 8.
+Proof. exact gen_mempool_init. Qed.
+Print Assumptions C09_gen_mempool_init.
+
+Theorem C09_gen_mempool_alloc :
+  forall (p : mempool) (af am top fresh : Z),
+         0 <= mp_count p ->
+         mp_count p + 1 < M64 ->
+         let
+         '(ret, cnt, pop_called, pop_arr, ms_called, ms_arg, set_called, set_ptr, set_val, set_len) :=
+          c9_mempool_alloc (mp_count p) (Z.of_nat (length (mp_freed p))) af top am fresh (b2z (mp_zp p)) (mp_esz p) in
+          let
+          '(p', o, fr) := mempool_alloc p in
+           mp_count p' = cnt /\
+           pop_called = b2z (negb fr) /\
+           ms_called = b2z fr /\
+           (fr = false ->
+            ret = top /\ pop_arr = af /\ mp_freed p' = tl (mp_freed p) /\ o = hd_error (mp_freed p) /\ mp_ms p' = mp_ms p) /\
+           (fr = true -> ret = fresh /\ ms_arg = am /\ (mp_ms p', o) = mstamp_alloc (mp_ms p) /\ mp_freed p' = []) /\
+           set_called = b2z (fr && mp_zp p) /\ (set_called = 1 -> set_ptr = ret /\ set_val = 0 /\ set_len = mp_esz p).
+Proof. exact gen_mempool_alloc. Qed.
+Print Assumptions C09_gen_mempool_alloc.
+
+Theorem C09_gen_mempool_free :
+  forall (p : mempool) (it : item) (af e : Z),
+         0 < mp_count p < M64 ->
+         let
+         '(cnt, stored, push_called, push_arr) := c9_mempool_free (mp_count p) af e in
+          mp_count (mempool_free p it) = cnt /\
+          stored = e /\ push_called = 1 /\ push_arr = af /\ mp_freed (mempool_free p it) = it :: mp_freed p.
+Proof. exact gen_mempool_free. Qed.
+Print Assumptions C09_gen_mempool_free.
+
+Theorem C09_gen_mempool_truncate :
+  forall (p : mempool) (af am : Z),
+         let
+         '(cnt, r_called, r_arr, t_called, t_arg) := c9_mempool_truncate af am in
+          mp_count (mempool_truncate p) = cnt /\
+          r_called = 1 /\
+          r_arr = af /\
+          t_called = 1 /\
+          t_arg = am /\ mp_freed (mempool_truncate p) = [] /\ mp_ms (mempool_truncate p) = mstamp_truncate (mp_ms p).
+Proof. exact gen_mempool_truncate. Qed.
+Print Assumptions C09_gen_mempool_truncate.
+
+Theorem C09_gen_list_init :
+  forall (addr : item -> Z) (alloc : Z) (p : mempool),
+         let
+         '(f, la, c, al, owned) := c9_list_init alloc in
+          let l := list_new p in
+          oaddr addr (l_first l) = f /\ oaddr addr (l_last l) = la /\ l_count l = c /\ al = alloc /\ owned = 0.
+Proof. exact gen_list_init. Qed.
+Print Assumptions C09_gen_list_init.
+
+Theorem C09_gen_list_unlink :
+  forall (addr : item -> Z) (l : sclist),
+         let
+         '(f, la, c) := c9_list_unlink in
+          let l' := list_unlink l in
+          oaddr addr (l_first l') = f /\ oaddr addr (l_last l') = la /\ l_count l' = c /\ l_pool l' = l_pool l.
+Proof. exact gen_list_unlink. Qed.
+Print Assumptions C09_gen_list_unlink.
+
+Theorem C09_gen_list_prepend :
+  forall addr : item -> Z,
+         (forall a b : item, addr a = addr b -> a = b) ->
+         (forall a : item, addr a <> 0) ->
+         forall (l : sclist) (d alloc : Z) (p : mempool) (it : item) (fr : bool),
+         mempool_alloc (l_pool l) = (p, Some it, fr) ->
+         0 <= l_count l ->
+         l_count l + 1 < M64 ->
+         let
+         '(ret, f, la, c, ldata, lnext, a_called, a_arg) :=
+          c9_list_prepend alloc (addr it) d (oaddr addr (l_first l)) (oaddr addr (l_last l)) (l_count l) in
+          let l' := list_prepend l d in
+          ret = addr it /\
+          oaddr addr (l_first l') = f /\
+          oaddr addr (l_last l') = la /\
+          l_count l' = c /\
+          l_pool l' = p /\
+          fst (l_heap l' it) = ldata /\
+          oaddr addr (snd (l_heap l' it)) = lnext /\
+          a_called = 1 /\ a_arg = alloc /\ (forall j : item, j <> it -> l_heap l' j = l_heap l j).
+Proof. exact gen_list_prepend. Qed.
+Print Assumptions C09_gen_list_prepend.
+
+Theorem C09_gen_list_append :
+  forall addr : item -> Z,
+         (forall a b : item, addr a = addr b -> a = b) ->
+         (forall a : item, addr a <> 0) ->
+         forall (l : sclist) (d alloc : Z) (p : mempool) (it : item) (fr : bool) (oldnext : Z),
+         mempool_alloc (l_pool l) = (p, Some it, fr) ->
+         0 <= l_count l ->
+         l_count l + 1 < M64 ->
+         l_last l <> Some it ->
+         let
+         '(ret, f, la, c, ldata, lnext, lastnext, a_called, a_arg) :=
+          c9_list_append alloc (addr it) d (oaddr addr (l_last l)) (oaddr addr (l_first l)) oldnext (l_count l) in
+          let l' := list_append l d in
+          ret = addr it /\
+          oaddr addr (l_first l') = f /\
+          oaddr addr (l_last l') = la /\
+          l_count l' = c /\
+          l_pool l' = p /\
+          fst (l_heap l' it) = ldata /\
+          oaddr addr (snd (l_heap l' it)) = lnext /\
+          a_called = 1 /\
+          a_arg = alloc /\
+          match l_last l with
+          | Some x =>
+              oaddr addr (snd (l_heap l' x)) = lastnext /\
+              fst (l_heap l' x) = fst (l_heap l x) /\ (forall j : item, j <> it -> j <> x -> l_heap l' j = l_heap l j)
+          | None => lastnext = oldnext /\ (forall j : item, j <> it -> l_heap l' j = l_heap l j)
+          end.
+Proof. exact gen_list_append. Qed.
+Print Assumptions C09_gen_list_append.
+
+Theorem C09_gen_list_insert :
+  forall addr : item -> Z,
+         (forall a b : item, addr a = addr b -> a = b) ->
+         (forall a : item, addr a <> 0) ->
+         forall (l : sclist) (pred : item) (d alloc : Z) (p : mempool) (it : item) (fr : bool),
+         mempool_alloc (l_pool l) = (p, Some it, fr) ->
+         0 <= l_count l ->
+         l_count l + 1 < M64 ->
+         pred <> it ->
+         let
+         '(ret, f, la, c, ldata, lnext, prednext, a_called, a_arg) :=
+          c9_list_insert alloc (addr it) d (oaddr addr (snd (l_heap l pred))) (addr pred) (oaddr addr (l_last l)) 
+            (l_count l) (oaddr addr (l_first l)) in
+          let l' := list_insert l pred d in
+          ret = addr it /\
+          oaddr addr (l_first l') = f /\
+          oaddr addr (l_last l') = la /\
+          l_count l' = c /\
+          l_pool l' = p /\
+          fst (l_heap l' it) = ldata /\
+          oaddr addr (snd (l_heap l' it)) = lnext /\
+          oaddr addr (snd (l_heap l' pred)) = prednext /\
+          fst (l_heap l' pred) = fst (l_heap l pred) /\
+          a_called = 1 /\ a_arg = alloc /\ (forall j : item, j <> it -> j <> pred -> l_heap l' j = l_heap l j).
+Proof. exact gen_list_insert. Qed.
+Print Assumptions C09_gen_list_insert.
+
+Theorem C09_gen_list_remove :
+  forall addr : item -> Z,
+         (forall a b : item, addr a = addr b -> a = b) ->
+         (forall a : item, addr a <> 0) ->
+         forall (l : sclist) (pred lynk : item) (alloc lst popret : Z),
+         snd (l_heap l pred) = Some lynk ->
+         0 < l_count l < M64 ->
+         let
+         '(ret, f, la, c, prednext, pop_called, _, f_called, f_alloc, f_item) :=
+          c9_list_remove (addr pred) lst popret (oaddr addr (l_first l)) (oaddr addr (l_last l)) (l_count l) 
+            (addr lynk) (oaddr addr (snd (l_heap l lynk))) (fst (l_heap l lynk)) alloc in
+          let
+          '(l', data) := list_remove l pred in
+           ret = data /\
+           oaddr addr (l_first l') = f /\
+           oaddr addr (l_last l') = la /\
+           l_count l' = c /\
+           oaddr addr (snd (l_heap l' pred)) = prednext /\
+           fst (l_heap l' pred) = fst (l_heap l pred) /\
+           pop_called = 0 /\
+           f_called = 1 /\
+           f_alloc = alloc /\
+           f_item = addr lynk /\
+           l_pool l' = mempool_free (l_pool l) lynk /\ (forall j : item, j <> pred -> l_heap l' j = l_heap l j).
+Proof. exact gen_list_remove. Qed.
+Print Assumptions C09_gen_list_remove.
+
+Theorem C09_gen_list_remove_null :
+  forall lst popret f la c pn ln ld alloc : Z,
+         let
+         '(ret, f', la', c', pn', pop_called, pop_arg, f_called, _, _) := c9_list_remove 0 lst popret f la c pn ln ld alloc in
+          ret = popret /\ pop_called = 1 /\ pop_arg = lst /\ f_called = 0 /\ f' = f /\ la' = la /\ c' = c /\ pn' = pn.
+Proof. exact gen_list_remove_null. Qed.
+Print Assumptions C09_gen_list_remove_null.
+
+Theorem C09_gen_list_pop :
+  forall addr : item -> Z,
+         (forall a b : item, addr a = addr b -> a = b) ->
+         (forall a : item, addr a <> 0) ->
+         forall (l : sclist) (lynk : item) (alloc : Z),
+         l_first l = Some lynk ->
+         0 < l_count l < M64 ->
+         let
+         '(ret, f, la, c, f_called, f_alloc, f_item) :=
+          c9_list_pop (addr lynk) (oaddr addr (snd (l_heap l lynk))) (fst (l_heap l lynk)) alloc (oaddr addr (l_last l))
+            (l_count l) in
+          let
+          '(l', data) := list_pop l in
+           ret = data /\
+           oaddr addr (l_first l') = f /\
+           oaddr addr (l_last l') = la /\
+           l_count l' = c /\
+           f_called = 1 /\
+           f_alloc = alloc /\ f_item = addr lynk /\ l_pool l' = mempool_free (l_pool l) lynk /\ l_heap l' = l_heap l.
+Proof. exact gen_list_pop. Qed.
+Print Assumptions C09_gen_list_pop.
+
+Theorem C09_gen_list_reset_step :
+  forall addr : item -> Z,
+         (forall a b : item, addr a = addr b -> a = b) ->
+         (forall a : item, addr a <> 0) ->
+         forall (fuel : nat) (h : item -> Z * option item) (i : item) (p : mempool) (cnt alloc : Z),
+         0 < cnt < M64 ->
+         let
+         '(nxt, c, f_called, f_alloc, f_item) := c9_list_reset_step (addr i) cnt (oaddr addr (snd (h i))) alloc in
+          f_called = 1 /\
+          f_alloc = alloc /\
+          f_item = addr i /\
+          nxt = oaddr addr (snd (h i)) /\ free_chain (S fuel) h (Some i) p cnt = free_chain fuel h (snd (h i)) (mempool_free p i) c.
+Proof. exact gen_list_reset_step. Qed.
+Print Assumptions C09_gen_list_reset_step.
+
+Theorem C09_gen_hash_slot :
+  forall (key : Type) (hf : key -> Z) (n : Z) (k : key),
+         0 < n ->
+         Z.of_nat (slot_of key hf n k) = c9_hash_slot_lookup (u32 (hf k)) n /\
+         Z.of_nat (slot_of key hf n k) = c9_hash_slot_insert (u32 (hf k)) n /\
+         Z.of_nat (slot_of key hf n k) = c9_hash_slot_remove (u32 (hf k)) n /\
+         Z.of_nat (slot_of key hf n k) = c9_hash_slot_rehash (u32 (hf k)) n.
+Proof. exact gen_hash_slot. Qed.
+Print Assumptions C09_gen_hash_slot.
+
+Theorem C09_gen_harr_insert :
+  forall (elem : Type) (hfu : elem -> Z) (equ : elem -> elem -> bool) (a : harray elem) (v : elem) (vp hp posp pd aa pr : Z),
+         posp <> 0 ->
+         Z.of_nat (length (ha_arr elem a)) < M64 ->
+         let hf := ha_hf elem hfu (ha_arr elem a) v in
+         let eq0 := ha_eq elem equ (ha_arr elem a) v in
+         let
+         '(h1, (added, found)) := insert_unique Z hf eq0 (ha_h elem a) (-1) in
+          let fnd := match found with
+                     | Some p0 => p0
+                     | None => -1
+                     end in
+          let
+          '(ret, pos, stored, cur, i_called, i_arg0, i_key, p_called, p_arr) :=
+           c9_harr_insert vp hp (b2z added) posp pd (Z.of_nat (length (ha_arr elem a))) aa pr fnd in
+           let
+           '(a', (added', pos')) := ha_insert elem hfu equ a v in
+            added' = added /\
+            pos' = pos /\
+            cur = 0 /\
+            i_called = 1 /\
+            i_arg0 = hp /\
+            s64 i_key = -1 /\
+            p_called = b2z added /\
+            (added = true ->
+             stored = Z.of_nat (length (ha_arr elem a)) /\
+             ret = pr /\ p_arr = aa /\ ha_arr elem a' = ha_arr elem a ++ [v] /\ ha_h elem a' = fst (assign Z hf eq0 h1 (-1) stored)) /\
+            (added = false -> stored = fnd /\ ret = 0 /\ a' = {| ha_arr := ha_arr elem a; ha_h := h1 |}).
+Proof. exact gen_harr_insert. Qed.
+Print Assumptions C09_gen_harr_insert.
+
+Theorem C09_gen_harr_lookup :
+  forall (elem : Type) (hfu : elem -> Z) (equ : elem -> elem -> bool) (a : harray elem) (v : elem) (vp hp posp pd : Z),
+         posp <> 0 ->
+         let o := ha_lookup elem hfu equ a v in
+         let
+         '(ret, pos, cur, l_called, l_arg0, l_key) :=
+          c9_harr_lookup vp hp match o with
+                               | Some _ => 1
+                               | None => 0
+                               end posp pd match o with
+                                           | Some p => p
+                                           | None => 0
+                                           end in
+          cur = 0 /\
+          l_called = 1 /\
+          l_arg0 = hp /\ s64 l_key = -1 /\ match o with
+                                           | Some p3 => ret = 1 /\ pos = p3
+                                           | None => ret = 0 /\ pos = pd
+                                           end.
+Proof. exact gen_harr_lookup. Qed.
+Print Assumptions C09_gen_harr_lookup.
+
+Theorem C09_gen_rec_insert :
+  forall (r : rarray) (junk af aa ip pr posp pd : Z),
+         posp <> 0 ->
+         0 <= ra_count r ->
+         ra_count r + 1 < M64 ->
+         let top := hd 0 (ra_f r) in
+         let
+         '(ret, pos, cnt, pop_called, pop_arr, ix_called, ix_arr, ix_pos, push_called, push_arr) :=
+          c9_rec_insert (Z.of_nat (length (ra_f r))) af top aa ip (Z.of_nat (length (ra_a r))) pr posp pd (ra_count r) in
+          let
+          '(r', p7) := ra_insert r junk in
+           p7 = pos /\
+           ra_count r' = cnt /\
+           match ra_f r with
+           | [] =>
+               pop_called = 0 /\
+               ix_called = 0 /\
+               push_called = 1 /\ push_arr = aa /\ ret = pr /\ ra_f r' = [] /\ length (ra_a r') = S (length (ra_a r))
+           | _ :: f' =>
+               pop_called = 1 /\
+               pop_arr = af /\
+               ix_called = 1 /\ ix_arr = aa /\ ix_pos = p7 /\ push_called = 0 /\ ret = ip /\ ra_f r' = f' /\ ra_a r' = ra_a r
+           end.
+Proof. exact gen_rec_insert. Qed.
+Print Assumptions C09_gen_rec_insert.
+
+Theorem C09_gen_rec_remove :
+  forall (r : rarray) (pos af aa ip : Z),
+         0 < ra_count r < M64 ->
+         let
+         '(ret, cnt, stored, push_called, push_arr, ix_called, ix_arr, ix_pos) := c9_rec_remove af pos (ra_count r) aa ip in
+          let
+          '(r', _) := ra_remove r pos in
+           ra_count r' = cnt /\
+           ra_f r' = stored :: ra_f r /\
+           ra_a r' = ra_a r /\ push_called = 1 /\ push_arr = af /\ ix_called = 1 /\ ix_arr = aa /\ ix_pos = pos /\ ret = ip.
+Proof. exact gen_rec_remove. Qed.
+Print Assumptions C09_gen_rec_remove.
+
+Theorem C09_gen_rec_init_reset :
+  forall (r : rarray) (aa af esz : Z),
+         let
+         '(c0, i1, i1_arr, i1_esz, i2, i2_arr, i2_esz) := c9_rec_init aa esz af in
+          let
+          '(c1, r1, r1_arr, r2, r2_arr) := c9_rec_reset aa af in
+           ra_count ra_init = c0 /\
+           ra_count (ra_reset r) = c1 /\
+           i1 = 1 /\
+           i1_arr = aa /\ i1_esz = esz /\ i2 = 1 /\ i2_arr = af /\ i2_esz = 8 /\ r1 = 1 /\ r1_arr = aa /\ r2 = 1 /\ r2_arr = af.
+Proof. exact gen_rec_init_reset. Qed.
+Print Assumptions C09_gen_rec_init_reset.
+
+Theorem C09_gen_array_index_pop :
+  forall base esz n : Z,
+         0 < n ->
+         0 <= esz ->
+         esz * n < M64 ->
+         n < M64 ->
+         c9_array_index base esz (n - 1) = base + esz * (n - 1) /\
+         c9_array_pop n base esz = (c9_array_index base esz (n - 1), n - 1).
+Proof. exact gen_array_index_pop. Qed.
+Print Assumptions C09_gen_array_index_pop.
+
+Theorem C09_gen_avl_at_step :
+  forall key : Type,
+         (key -> key -> Z) ->
+         forall (l : tree key) (y : key) (c : Z) (r : tree key) (p pl pr u : Z),
+         nullp key pl l ->
+         0 <= cnt key l ->
+         cnt key l + 1 < M32 ->
+         0 <= u < M32 ->
+         let
+         '(stop, ret, nxt, u') := c9_avl_at_step p u pl (cnt key l) pr in
+          (stop = 1 -> ret = p /\ at_ key (N l y c r) u = Some y) /\
+          (stop = 0 ->
+           nxt = pl /\ u' = u /\ at_ key (N l y c r) u = at_ key l u \/
+           nxt = pr /\ 0 <= u' < M32 /\ at_ key (N l y c r) u = at_ key r u') /\ (stop = 0 \/ stop = 1).
+Proof. exact gen_avl_at_step. Qed.
+Print Assumptions C09_gen_avl_at_step.
+
+Theorem C09_gen_avl_index_step :
+  forall (key : Type) (cmp : key -> key -> Z) (l : tree key) (y : key) (c : Z) (r : tree key) (x : key)
+           (acc ch pp pl pr : Z),
+         nullp key pl l ->
+         0 <= cnt key l ->
+         0 <= acc ->
+         acc + cnt key l + 1 < M32 ->
+         (0 < cmp x y -> ch = pr) ->
+         (cmp x y < 0 -> ch <> pr) ->
+         cmp x y <> 0 ->
+         let
+         '(nxt, acc') := c9_avl_index_step ch acc pp pr pl (cnt key l) in
+          nxt = pp /\ index key cmp (N l y c r) x acc = index key cmp (if cmp x y <? 0 then l else r) x acc'.
+Proof. exact gen_avl_index_step. Qed.
+Print Assumptions C09_gen_avl_index_step.
+
+Theorem C09_gen_avl_search_step :
+  forall (key : Type) (cmp : key -> key -> Z) (l : tree key) (y : key) (c : Z) (r : tree key) (x : key) (p pl pr out : Z),
+         nullp key pl l ->
+         nullp key pr r ->
+         let
+         '(stop, ret, nxt, out') := c9_avl_search_step (cmp x y) pl out p pr in
+          (stop = 1 -> out' = p /\ closest key cmp (N l y c r) x = Some (y, ret)) /\
+          (stop = 0 ->
+           out' = out /\
+           (nxt = pl /\ l <> E /\ closest key cmp (N l y c r) x = closest key cmp l x \/
+            nxt = pr /\ r <> E /\ closest key cmp (N l y c r) x = closest key cmp r x)) /\ (stop = 0 \/ stop = 1).
+Proof. exact gen_avl_search_step. Qed.
+Print Assumptions C09_gen_avl_search_step.
+
+Theorem C09_gen_avl_rotation_kind :
+  forall (key : Type) (a b : tree key) (pa pb : Z),
+         nullp key pa a ->
+         nullp key pb b ->
+         c9_avl_left_single pa (cnt key a) pb (cnt key b) = (cnt key b <=? cnt key a) /\
+         c9_avl_right_single pb (cnt key b) pa (cnt key a) = (cnt key a <=? cnt key b).
+Proof. exact gen_avl_rotation_kind. Qed.
+Print Assumptions C09_gen_avl_rotation_kind.
+
+Theorem C09_gen_avl_calc_count :
+  forall key : Type,
+         (key -> key -> Z) ->
+         forall (l r : tree key) (x : key) (pl pr : Z),
+         nullp key pl l ->
+         nullp key pr r ->
+         0 <= cnt key l ->
+         0 <= cnt key r ->
+         cnt key l + cnt key r + 1 < M32 -> cnt key (mk key l x r) = c9_avl_calc_count pl (cnt key l) pr (cnt key r).
+Proof. exact gen_avl_calc_count. Qed.
+Print Assumptions C09_gen_avl_calc_count.
+
+Theorem C09_gen_avl_count_order :
+  c9_avl_count_order = [1; 2; 1; 2; 3; 1; 2; 1; 2; 3; 1].
+Proof. exact gen_avl_count_order. Qed.
+Print Assumptions C09_gen_avl_count_order.
+
+Theorem C09_gen_kv_types :
+  c9_SC_KEYVALUE_ENTRY_NONE = 0 /\
+         c9_SC_KEYVALUE_ENTRY_INT = 1 /\
+         c9_SC_KEYVALUE_ENTRY_DOUBLE = 2 /\ c9_SC_KEYVALUE_ENTRY_STRING = 3 /\ c9_SC_KEYVALUE_ENTRY_POINTER = 4.
+Proof. exact gen_kv_types. Qed.
+Print Assumptions C09_gen_kv_types.
+
+Theorem C09_gen_kv_get_int_check :
+  forall (K : Type) (hfk : K -> Z) (keq : K -> K -> bool) (s : kvs K) (k : K) (statusp st keyp hp fp : Z),
+         statusp <> 0 ->
+         let o := kv_lookup K hfk keq s k in
+         0 <= found_type K o < M32 ->
+         let
+         '(ret, st', probe_key, l_called, l_arg0) :=
+          c9_kv_get_int_check statusp st keyp c9_SC_KEYVALUE_ENTRY_NONE hp (found_flag K o) fp (found_type K o)
+            c9_SC_KEYVALUE_ENTRY_INT (found_val K o) in
+          kv_get_int_check K hfk keq s k st = (ret, st') /\ probe_key = keyp /\ l_called = 1 /\ l_arg0 = hp.
+Proof. exact gen_kv_get_int_check. Qed.
+Print Assumptions C09_gen_kv_get_int_check.
+
+Theorem C09_gen_kv_exists :
+  forall (K : Type) (hfk : K -> Z) (keq : K -> K -> bool) (s : kvs K) (k : K) (keyp hp fp : Z),
+         let o := kv_lookup K hfk keq s k in
+         let
+         '(ret, probe_key, l_called, l_arg0) := c9_kv_exists keyp c9_SC_KEYVALUE_ENTRY_NONE hp (found_flag K o) fp (found_type K o)
+          in kv_exists K hfk keq s k = ret /\ probe_key = keyp /\ l_called = 1 /\ l_arg0 = hp.
+Proof. exact gen_kv_exists. Qed.
+Print Assumptions C09_gen_kv_exists.
+
+Theorem C09_gen_kv_unset :
+  forall (K : Type) (hfk : K -> Z) (keq : K -> K -> bool) (s : kvs K) (k : K) (keyp hp ep ap : Z),
+         let
+         '(_, found) := remove (entry K) (ehf K hfk) (eeq K keq) (kv_hash K s) (probe K k) in
+          let
+          '(ret, probe_key, r_called, r_arg0, f_called, f_alloc, f_item) :=
+           c9_kv_unset keyp c9_SC_KEYVALUE_ENTRY_NONE hp (found_flag K found) ep (found_type K found) ap in
+           let
+           '(s', ty) := kv_unset K hfk keq s k in
+            ty = ret /\
+            probe_key = keyp /\
+            r_called = 1 /\
+            r_arg0 = hp /\
+            kv_pool K s' = kv_pool K s - f_called /\ (f_called = 1 -> f_alloc = ap /\ f_item = ep) /\ f_called = found_flag K found.
+Proof. exact gen_kv_unset. Qed.
+Print Assumptions C09_gen_kv_unset.
 
 (* ---------- the hypotheses are satisfiable ---------- *)
 Example C09_ex_hash_legal : Forall (legal_op (Z * Z) (fun a b => fst a =? fst b))
